@@ -1,6 +1,7 @@
 #!/bin/bash
 # Run once after a fresh restore, offline: generate the toolchain overlay, build the harness, warm the build cache.
 set -euo pipefail
-/verif/scripts/mkoverlay.sh
-/verif/scripts/build.sh
-/verif/bin/vpx list
+. "$(dirname "$0")/env.sh"
+$ROOT/scripts/mkoverlay.sh
+$ROOT/scripts/build.sh
+$ROOT/bin/vpx list
